@@ -474,8 +474,10 @@ class Verifier(Engine):
                 st.assume(x)
         flds = set(fields)
         if has_yield and "g" in st.heap:
+            assigned = self.ghost_assigned()
             for k in st.heap["g"]:
-                flds.add(("g", k))
+                if k in assigned:       # ghost fields written only by init are constants
+                    flds.add(("g", k))
             for k in (self.contract.hooks or {}).get("env_frame", ()):
                 flds.add(("self", k))
         for (o, fld) in sorted(flds):
@@ -490,6 +492,45 @@ class Verifier(Engine):
             st.heap[o][fld] = nv
             for x in cs:
                 st.assume(x)
+
+    def ghost_assigned(self):
+        """Ghost fields that some emit/stop hook (or a ghost function it calls) may assign."""
+        if getattr(self, "_ghost_assigned", None) is not None:
+            return self._ghost_assigned
+        hooks = self.contract.hooks or {}
+        mod = hooks.get("module")
+        out = set()
+        todo = [v for k, v in hooks.items() if k.startswith("emit_") or k == "stop"]
+        seen = set()
+        while todo:
+            fn = todo.pop()
+            if fn in seen:
+                continue
+            seen.add(fn)
+            try:
+                gi = self.reg.ghost_function(mod, fn)
+            except EngineError:
+                continue
+            for sub in ast.walk(gi.node):
+                tgt = []
+                if isinstance(sub, ast.Assign):
+                    tgt = sub.targets
+                elif isinstance(sub, (ast.AugAssign, ast.AnnAssign)):
+                    tgt = [sub.target]
+                for t in tgt:
+                    for e in ast.walk(t):
+                        if isinstance(e, ast.Attribute) and isinstance(e.value, ast.Name) and e.value.id == "g":
+                            out.add(e.attr)
+                if isinstance(sub, ast.Call):
+                    f = sub.func
+                    if isinstance(f, ast.Attribute) and f.attr in MUTATORS and \
+                            isinstance(f.value, ast.Attribute) and isinstance(f.value.value, ast.Name) \
+                            and f.value.value.id == "g":
+                        out.add(f.value.attr)
+                    elif isinstance(f, ast.Name):
+                        todo.append(f.id)
+        self._ghost_assigned = out
+        return out
 
     def loop_ordinal(self, node, st):
         fi = st.frames[-1].func or self.fi
